@@ -58,6 +58,11 @@ def rand_variant(rng, ident, generics, allow_default=True, allow_disabled=True, 
     dis = allow_disabled and rng.random() < 0.15
     aci = rng.choice([2, 2, 2, 1, 0])
     v = variant(ident, kind, fields, ser=ser, ts=ts, dis=dis, aci=aci, acif=rng.randrange(2))
+    if dis and rng.random() < 0.4:
+        # `disabled` in a later #[strum(..)] attribute, after a non-strum attribute
+        v["aci"] = 2
+        items = ['serialize = %s' % __import__("vlib.defs", fromlist=["rs_str"]).rs_str(s) for s in v["ser"]] + (['to_string = %s' % __import__("vlib.defs", fromlist=["rs_str"]).rs_str(v["ts"][0])] if v["ts"] else [])
+        v["raw"] = (["#[strum(%s)]" % ", ".join(items)] if items else ["#[strum()]"]) + ["#[allow(dead_code)]", "#[strum(disabled)]"]
     # default_with: variant level on 1-field tuple, field level on named fields (the documented forms)
     if kind == "tuple" and nf == 1 and fields[0]["ty"] in PLAIN_TYPES and rng.random() < 0.3:
         from .defs import TYPES
